@@ -46,6 +46,9 @@ struct Case {
     /// drop mask over the datagrams emitted after the close
     mask: u64,
     dup_close: bool,
+    /// an exact stateless reset reaches the closing side this many ms after its close()
+    /// (the peer lost its state, e.g. restarted)
+    reset_ms: Option<u64>,
 }
 
 fn cfgs() -> Vec<PairCfg> {
@@ -135,7 +138,7 @@ fn has_close(p: &StdPair, node: usize, at: Duration) -> bool {
 fn run_case(base: Instant, c: &Case, dump: bool) -> Out {
     let r = guarded(|| {
         let cfg = cfg_named(&c.cfg);
-        let mut p = std_pair_pre(base, &cfg, c.wl, ReadMode::default(), |_| {});
+        let mut p = std_pair_pre(base, &cfg, c.wl, ReadMode::default(), |w| w.keep_data = true);
         let mut lives: BTreeMap<(usize, usize), Life> = BTreeMap::new();
         let mut closed_at: Option<Duration> = None;
         let mut close_emitted = true;
@@ -175,6 +178,13 @@ fn run_case(base: Instant, c: &Case, dump: bool) -> Out {
                         f.seq = p.w.seq;
                         p.w.seq += 1;
                         p.w.net.push(f);
+                    }
+                }
+                if let Some(ms) = c.reset_ms {
+                    let target = if c.kind == Kind::ServerClose { SERVER } else { CLIENT };
+                    if let Some(d) = crate::scen::exact_stateless_reset(&p, target) {
+                        let (src, dst) = (p.w.nodes[1 - target].addr, p.w.nodes[target].addr);
+                        p.w.inject(src, dst, d, Duration::from_millis(ms));
                     }
                 }
                 // prompt-close oracle
@@ -250,7 +260,10 @@ fn run_case(base: Instant, c: &Case, dump: bool) -> Out {
                         v.push((format!("lost-reported-twice:{who}"), format!("{who} got ConnectionLost {} times: {:?}", s.lost.len(), s.lost)));
                     }
                     if local_closer(node) && c.kind != Kind::BothClose && !s.lost.is_empty() && closed_at.map_or(false, |t| life.closed_at == Some(t)) {
-                        v.push((format!("local-close-reported:{who}"), format!("{who} closed locally but got ConnectionLost {:?}", s.lost)));
+                        // the reason's kind is part of the signature, so that a known finding about one
+                        // reason does not hide a report with another
+                        let kind: String = s.lost.first().map(|l| format!("{l:?}").chars().take_while(|c| c.is_alphanumeric()).collect()).unwrap_or_default();
+                        v.push((format!("local-close-reported:{who}:{kind}"), format!("{who} closed locally but got ConnectionLost {:?}", s.lost)));
                     }
                     if s.app.obs.events_after_lost > 0 {
                         v.push((format!("events-after-lost:{who}"), format!("{who} received {} events after ConnectionLost", s.app.obs.events_after_lost)));
@@ -359,7 +372,7 @@ pub fn main(args: &Args) -> ! {
     let mut rep = Report::new("C08", args, "fault_enumeration");
     let thorough = args.tier == Tier::Thorough;
     let dl = deadline(if thorough { 1200 } else { 45 });
-    rep.rule = "E3 over close/crash points: for each (configuration, workload) the baseline is run once to count its steps; then for EVERY step index j of it and each kind in {client close, server close, both close, client black-holed, server black-holed} and each drop mask over the first M datagrams emitted after the close (plus duplication of the first close packet) a complete execution is run on the real endpoints and the termination oracles are evaluated. Non-trivial = the run differs from the baseline by trace hash; distinct = distinct trace hashes.".into();
+    rep.rule = "E3 over close/crash points: for each (configuration, workload) the baseline is run once to count its steps; then for EVERY step index j of it and each kind in {client close, server close, both close, client black-holed, server black-holed} and each drop mask over the first M datagrams emitted after the close (plus duplication of the first close packet, plus an exact stateless reset reaching the closing side 1 ms / 40 ms after its close, as from a peer that lost its state) a complete execution is run on the real endpoints and the termination oracles are evaluated. Non-trivial = the run differs from the baseline by trace hash; distinct = distinct trace hashes.".into();
     let wls: Vec<(String, Wl)> = vec![("W1".into(), Wl::W1), ("W6".into(), Wl::W6), ("W2".into(), Wl::W2), ("W0".into(), Wl::W0)];
     let mbits = if thorough { 6 } else { 3 };
     let mut cases = vec![];
@@ -373,7 +386,7 @@ pub fn main(args: &Args) -> ! {
             if !thorough && heavy && *wl == Wl::W2 {
                 continue;
             }
-            let b = run_case(base, &Case { cfg: cfg.client.name.clone(), wl: *wl, at_step: 0, kind: Kind::None, mask: 0, dup_close: false }, false);
+            let b = run_case(base, &Case { cfg: cfg.client.name.clone(), wl: *wl, at_step: 0, kind: Kind::None, mask: 0, dup_close: false, reset_ms: None }, false);
             baselines.insert((cfg.client.name.clone(), wn.clone()), b.trace);
             let nsteps = b.steps.min(if thorough { 200 } else { 90 });
             let stride = if thorough || nsteps < 50 { 1 } else { 2 };
@@ -383,13 +396,19 @@ pub fn main(args: &Args) -> ! {
                         if !heavy && mask != 0 && mask != 1 {
                             continue;
                         }
-                        cases.push(Case { cfg: cfg.client.name.clone(), wl: *wl, at_step: j, kind: kind.clone(), mask, dup_close: false });
+                        cases.push(Case { cfg: cfg.client.name.clone(), wl: *wl, at_step: j, kind: kind.clone(), mask, dup_close: false, reset_ms: None });
                     }
-                    cases.push(Case { cfg: cfg.client.name.clone(), wl: *wl, at_step: j, kind: kind.clone(), mask: 0, dup_close: true });
+                    cases.push(Case { cfg: cfg.client.name.clone(), wl: *wl, at_step: j, kind: kind.clone(), mask: 0, dup_close: true, reset_ms: None });
+                    if kind != Kind::BothClose && heavy {
+                        for ms in [1u64, 40] {
+                            cases.push(Case { cfg: cfg.client.name.clone(), wl: *wl, at_step: j, kind: kind.clone(), mask: 0, dup_close: false, reset_ms: Some(ms) });
+                            cases.push(Case { cfg: cfg.client.name.clone(), wl: *wl, at_step: j, kind: kind.clone(), mask: 1, dup_close: false, reset_ms: Some(ms) });
+                        }
+                    }
                 }
                 if cfg.client.idle_ms.is_some() || cfg.client.name == "plain" {
                     for n in [CLIENT, SERVER] {
-                        cases.push(Case { cfg: cfg.client.name.clone(), wl: *wl, at_step: j, kind: Kind::Blackhole(n), mask: 0, dup_close: false });
+                        cases.push(Case { cfg: cfg.client.name.clone(), wl: *wl, at_step: j, kind: Kind::Blackhole(n), mask: 0, dup_close: false, reset_ms: None });
                     }
                 }
             }
@@ -415,8 +434,8 @@ pub fn main(args: &Args) -> ! {
             };
             rep.violation(Violation {
                 signature: sig2,
-                what: format!("cfg={} wl={:?} kind={:?} step={} mask={:#b} dup_close={}: {what}", c.cfg, c.wl, c.kind, c.at_step, c.mask, c.dup_close),
-                replay: json!({"check":"c08","cfg":c.cfg,"wl":format!("{:?}",c.wl),"kind":format!("{:?}",c.kind),"step":c.at_step,"mask":c.mask,"dup_close":c.dup_close}),
+                what: format!("cfg={} wl={:?} kind={:?} step={} mask={:#b} dup_close={} stateless-reset-after={:?}ms: {what}", c.cfg, c.wl, c.kind, c.at_step, c.mask, c.dup_close, c.reset_ms),
+                replay: json!({"check":"c08","cfg":c.cfg,"wl":format!("{:?}",c.wl),"kind":format!("{:?}",c.kind),"step":c.at_step,"mask":c.mask,"dup_close":c.dup_close,"reset_ms":c.reset_ms}),
             });
         }
     }
@@ -478,6 +497,7 @@ fn replay(args: &Args) -> ! {
         kind: parse_kind(r["kind"].as_str().unwrap_or("")),
         mask: r["mask"].as_u64().unwrap_or(0),
         dup_close: r["dup_close"].as_bool().unwrap_or(false),
+        reset_ms: r["reset_ms"].as_u64(),
     };
     let o = run_case(Instant::now(), &c, true);
     println!("violations: {:?}", o.viol);
